@@ -8,12 +8,14 @@ package format
 
 // Text codec: bytes <-> string without transformation.
 //@ func (*textCodec).HandleRead
+//@   params arg0 ctx message
 //@   requires ctx != nil && implies(tbStable(message) || (tbOther(message) && impl(message, io.Reader)), rwf(message))
 //@   may_panic true
 //@   ensures one: nemitted() == 2 && evis(0, "utils.MustToBytes") && evarg(0, 0) == message && evis(1, "InboundContext.HandleRead") && evrecv(1) == ctx
 //@   ensures same_bytes: is(evarg(1, 0), string) && at(1, seqeq(content(as(evarg(1, 0), string)), content(evres(0, 0))))
 //@   ensures_panic nothing_delivered: count("InboundContext.HandleRead") == 0 || nemitted() == 2
 //@ func (*textCodec).HandleWrite
+//@   params arg0 ctx message
 //@   requires ctx != nil
 //@   may_panic true
 //@   ensures one: nemitted() == 1 && evis(0, "OutboundContext.HandleWrite") && evrecv(0) == ctx
@@ -22,6 +24,7 @@ package format
 
 // JSON codec: the glue around encoding/json.
 //@ func (*jsonCodec).HandleRead
+//@   params j ctx message
 //@   requires ctx != nil && j != nil
 //@   may_panic true
 //@   ensures flags: count("(*encoding/json.Decoder).UseNumber") == ite(old(j.useNumber), 1, 0) && count("(*encoding/json.Decoder).DisallowUnknownFields") == ite(old(j.disAllowUnknownFields), 1, 0)
@@ -31,6 +34,7 @@ package format
 //@   ensures exactly_once: count("InboundContext.HandleRead") == 1 && count("(*encoding/json.Decoder).Decode") == 1
 //@   ensures_panic rejected: count("InboundContext.HandleRead") == 0 || evis(nemitted()-1, "InboundContext.HandleRead")
 //@ func (*jsonCodec).HandleWrite
+//@   params j ctx message
 //@   requires ctx != nil
 //@   may_panic true
 //@   ensures only_if_marshalled: evres(0, 1) == nil
